@@ -10,9 +10,11 @@ package main
 
 import (
 	"bytes"
+	"encoding/json"
 	"flag"
 	"fmt"
 	"os"
+	"path/filepath"
 	"runtime"
 	"strconv"
 	"strings"
@@ -149,6 +151,9 @@ func main() {
 			*prop = strings.TrimPrefix(a, "-prop=")
 		}
 	}
+	if *prop == "C32" {
+		appendWatermarkShape()
+	}
 	switch *prop {
 	case "C33":
 		hlib.Main("conc/C33", &dirLockEngine{})
@@ -157,5 +162,36 @@ func main() {
 	default:
 		fmt.Fprintln(os.Stderr, "unknown -prop")
 		os.Exit(2)
+	}
+}
+
+// appendWatermarkShape passes the two extracted facts wm.tracksZero / wm.holdsAtDone to the Lean
+// driver by extending the -cfg line.  They are not in props/C32.json's `expected` (both values are
+// legitimate for C32: every C32 theorem holds for either), so ./check does not put them there.
+func appendWatermarkShape() {
+	exe, err := os.Executable()
+	if err != nil {
+		return
+	}
+	data, err := os.ReadFile(filepath.Join(filepath.Dir(filepath.Dir(exe)), "work", "facts_conc.json"))
+	if err != nil {
+		return
+	}
+	var fx struct {
+		Facts map[string]string `json:"facts"`
+	}
+	if json.Unmarshal(data, &fx) != nil {
+		return
+	}
+	extra := ""
+	for _, k := range []string{"wm.tracksZero", "wm.holdsAtDone"} {
+		if v := fx.Facts[k]; v == "true" || v == "false" {
+			extra += " " + k + "=" + v
+		}
+	}
+	for i, a := range os.Args {
+		if a == "-cfg" && i+1 < len(os.Args) && strings.HasPrefix(os.Args[i+1], "cfg") {
+			os.Args[i+1] += extra
+		}
 	}
 }
